@@ -80,6 +80,9 @@ pub struct AnnSpec {
     pub inv: Vec<u64>,
     /// refs non-empty (refs) / SEED feature (node)
     pub flag: bool,
+    /// forged by re-using the signature bytes of the genuine announcement delivered by op number
+    /// `reuse` of the same case (`sig` field `r<op>`); `sig_ok` is then false
+    pub reuse: Option<usize>,
 }
 
 #[derive(Clone, Debug, PartialEq, Eq)]
@@ -174,7 +177,11 @@ pub fn parse_op(tok: &str) -> Option<Op> {
                     (vec![], flag(payload)?)
                 }
             };
-            Op::Recv(num(p)?, AnnSpec { node: num(node)?, kind, repo, ts: num(ts)?, sig_ok: flag(sig)?, inv, flag: fl })
+            let (sig_ok, reuse) = match sig.strip_prefix('r') {
+                Some(k) => (false, Some(num(k)? as usize)),
+                None => (flag(sig)?, None),
+            };
+            Op::Recv(num(p)?, AnnSpec { node: num(node)?, kind, repo, ts: num(ts)?, sig_ok, inv, flag: fl, reuse })
         }
         ["s", p, filt, since, until] => {
             let filt = if *filt == "*" { None } else { Some(plus(filt)?) };
@@ -241,6 +248,8 @@ pub struct WriteObs {
     pub inv: Vec<u64>,
     /// the message content without signature (for the oracles only; never printed)
     pub content: String,
+    /// `Announcement::verify()` of the message actually written (for the oracles only)
+    pub verified: bool,
 }
 
 impl WriteObs {
@@ -268,6 +277,8 @@ pub struct StepRec {
     /// gossip store rows after the step (sorted)
     pub rows: Vec<AnnObs>,
     pub rows_changed: bool,
+    /// rows whose stored message does not pass `Announcement::verify()` (for the oracles only)
+    pub rows_unverified: Vec<AnnObs>,
     /// the repositories (ground truth + storage) while the step ran (`SetRepo` applies after)
     pub repos: BTreeMap<u64, RepoSpec>,
     /// peers connected when the step started
@@ -407,6 +418,8 @@ pub struct World {
     pub prev_rows: Vec<AnnObs>,
     /// highest clock reading at which a message was received
     pub hi: u64,
+    /// every op of the case (a forged announcement may re-use the signature of the genuine one of another op)
+    pub ops: Vec<Op>,
 }
 
 /// The Bloom filter must behave like a set on the repositories in use (checked once).
@@ -464,6 +477,7 @@ impl World {
             repos: BTreeMap::new(),
             prev_rows: vec![],
             hi: 0,
+            ops: vec![],
         };
         w.drain(&mut vec![], &mut vec![]);
         w.prev_rows = w.rows();
@@ -495,6 +509,19 @@ impl World {
         }
     }
 
+    /// Rows of the gossip store whose stored announcement fails `verify()`.
+    pub fn rows_unverified(&self) -> Vec<AnnObs> {
+        self.peer
+            .database()
+            .gossip()
+            .filtered(&Filter::default(), Timestamp::MIN, Timestamp::MAX)
+            .expect("gossip store query")
+            .filter_map(|a| a.ok())
+            .filter(|a| !a.verify())
+            .map(|a| self.obs_of(&a).0)
+            .collect()
+    }
+
     pub fn rows(&self) -> Vec<AnnObs> {
         let mut v: Vec<AnnObs> = self
             .peer
@@ -524,7 +551,7 @@ impl World {
                         for m in msgs {
                             if let Message::Announcement(a) = m {
                                 let (ann, inv) = self.obs_of(&a);
-                                writes.push(WriteObs { peer: p, ann, inv, content: format!("{:?}", a.message) });
+                                writes.push(WriteObs { peer: p, ann, inv, content: format!("{:?}", a.message), verified: a.verify() });
                             }
                         }
                     }
@@ -585,9 +612,21 @@ impl World {
             }
             .into(),
         };
-        // A forged announcement: signed by somebody else's key.
-        let signer = if a.sig_ok { a.node } else { (a.node + 1) % N_NODES };
-        let mut ann = msg.signed(&self.devices[signer as usize]);
+        let mut ann = match a.reuse {
+            // A forged announcement carrying the signature bytes of the genuine announcement of op `k`.
+            Some(k) => {
+                let Some(Op::Recv(_, g)) = self.ops.get(k) else { return None };
+                if !g.sig_ok || g.reuse.is_some() || a.sig_ok {
+                    return None;
+                }
+                let genuine = self.announcement(g)?;
+                let mut ann = msg.signed(&self.devices[a.node as usize]);
+                ann.signature = genuine.signature;
+                ann
+            }
+            // A forged announcement: signed by somebody else's key.
+            None => msg.signed(&self.devices[(if a.sig_ok { a.node } else { (a.node + 1) % N_NODES }) as usize]),
+        };
         ann.node = self.nid(a.node);
         // `sigOk` of the case text is the value of the real `Announcement::verify`.
         if ann.verify() != a.sig_ok {
@@ -807,12 +846,14 @@ impl World {
         let rows = if panicked.is_some() { self.prev_rows.clone() } else { self.rows() };
         let rows_changed = rows != self.prev_rows;
         self.prev_rows = rows.clone();
+        let rows_unverified = if panicked.is_some() { vec![] } else { self.rows_unverified() };
         Some(StepRec {
             op: op.clone(),
             writes,
             discs,
             rows,
             rows_changed,
+            rows_unverified,
             repos,
             sessions,
             clock_before,
@@ -829,6 +870,7 @@ pub fn run(input: &str) -> Option<(u64, Vec<StepRec>)> {
         return None;
     }
     let mut w = World::new(t0, relay);
+    w.ops = ops.clone();
     let mut recs = vec![];
     for op in &ops {
         let r = w.step(op)?;
@@ -879,5 +921,9 @@ pub fn ann_tok(p: u64, a: &AnnSpec) -> String {
         Kind::Inv => plus_list(&a.inv),
         _ => (a.flag as u8).to_string(),
     };
-    format!("a,{},{},{},{},{},{},{}", p, a.node, a.kind.ch(), a.repo, a.ts, a.sig_ok as u8, payload)
+    let sig = match a.reuse {
+        Some(k) => format!("r{k}"),
+        None => (a.sig_ok as u8).to_string(),
+    };
+    format!("a,{},{},{},{},{},{},{}", p, a.node, a.kind.ch(), a.repo, a.ts, sig, payload)
 }
